@@ -31,6 +31,9 @@ type TxSpec struct {
 	Price uint64 `json:"price"`
 	Gas   uint64 `json:"gas"`
 	Value uint64 `json:"value"`
+	// Size: bytes of (zero) call data; > 0 only in the size-limit histories, where a transaction
+	// may occupy 2-4 slots of 32 KiB (never printed to Coq: the model counts transactions)
+	Size uint64 `json:"size,omitempty"`
 }
 
 func (s TxSpec) Cost() *big.Int {
@@ -99,6 +102,9 @@ func (w *world) tx(s TxSpec) *types.Transaction {
 	to := w.to
 	inner := &types.QuaiTx{ChainID: chainID, Nonce: s.Nonce, GasPrice: new(big.Int).SetUint64(s.Price), Gas: s.Gas, To: &to,
 		Value: new(big.Int).SetUint64(s.Value)}
+	if s.Size > 0 {
+		inner.Data = make([]byte, s.Size)
+	}
 	t, err := types.SignTx(types.NewTx(inner), w.signer, w.accts[s.From].key)
 	if err != nil {
 		panic(err)
